@@ -62,13 +62,13 @@ edit('src/util/mod.rs', [
                         break;
                     }
 
-                    count += bytecount::count(buf, b'\n');
+                    count += bytecount::count(buf, b'\\n');
                     buf.len()""", """                if let Ok(chunk) = rd.fill_buf() {
                     if chunk.is_empty() {
                         break;
                     }
 
-                    count += bytecount::count(chunk, b'\n');
+                    count += bytecount::count(chunk, b'\\n');
                     chunk.len()"""),
  ("            reader.consume(len);", "            rd.consume(len);"),
  ("            return buf[0] == 0x23 && buf[1] == 0x21;", "            return buf[1] == 0x21 && buf[0] == 0x23;"),
